@@ -130,7 +130,10 @@ pub fn generate(prop: &str, tier: &str, seed: u64, rec: &mut Rec) {
         .unwrap_or(if thorough { 20 } else { 1 });
     match prop {
         "C01" => gen_c01(rec, &mut rng, 500 * scale, false),
-        "C08" => gen_c01(rec, &mut rng, 1500 * scale, true),
+        "C08" => {
+            gen_c01(rec, &mut rng, 1500 * scale, true);
+            gen_c08_exhaustive(rec, if thorough { 4 } else { 3 });
+        }
         "C11" => gen_c11(rec, &mut rng, scale),
         "C02" => gen_writes(rec, &mut rng, 700 * scale, false),
         "C03" => {
@@ -353,6 +356,60 @@ fn gen_c01(rec: &mut Rec, rng: &mut Rng, cases: u64, malformed: bool) {
         rec.op(&format!("init {}", hex0(&doc)));
         let n_ops = if big { 30 } else { rng.range(5, 60) as usize };
         read_history(rec, rng, n_ops, &interned, big);
+    }
+}
+
+/// every byte string up to `maxlen` over an alphabet of decision-relevant bytes (each container /
+/// string / number marker with small lengths, a width-carrying marker of each kind, the reserved
+/// marker, a plain character), each followed by a fixed battery of reads with repeats
+fn gen_c08_exhaustive(rec: &mut Rec, maxlen: usize) {
+    const ALPHA: [u8; 20] = [
+        0x00, 0x7f, 0x80, 0x81, 0x82, 0x90, 0x91, 0x92, 0xa0, 0xa1, 0x61, 0xc0, 0xc1, 0xc2, 0xc3, 0xcc, 0xd9, 0xdc, 0xca, 0xff,
+    ];
+    fn handle_of(ans: &str) -> Option<String> {
+        let t: Vec<&str> = ans.split_whitespace().collect();
+        if t.len() == 3 && matches!(t[0], "str" | "arr" | "obj") {
+            Some(t[1].to_string())
+        } else {
+            None
+        }
+    }
+    for len in 1..=maxlen {
+        let total = ALPHA.len().pow(len as u32);
+        for code in 0..total {
+            let mut c = code;
+            let doc: Vec<u8> = (0..len)
+                .map(|_| {
+                    let b = ALPHA[c % ALPHA.len()];
+                    c /= ALPHA.len();
+                    b
+                })
+                .collect();
+            rec.case("c08x");
+            rec.bump(&format!("exhaustive:len{}", len));
+            rec.op(&format!("init {}", hex0(&doc)));
+            let r = rec.op("root");
+            if let Some(h) = handle_of(&r) {
+                let first = rec.op(&format!("idx {} 1", h));
+                let zero = rec.op(&format!("idx {} 0", h));
+                rec.op(&format!("key {} 0", h));
+                rec.op(&format!("prop {} 61", h));
+                rec.op(&format!("idx {} 1", h));
+                rec.op(&format!("prop {} 61", h));
+                rec.op(&format!("key {} 1", h));
+                rec.op(&format!("len {}", h));
+                rec.op(&format!("str {}", h));
+                for sub in [zero, first] {
+                    if let Some(hk) = handle_of(&sub) {
+                        rec.op(&format!("idx {} 0", hk));
+                        rec.op(&format!("prop {} 61", hk));
+                        rec.op(&format!("idx {} 0", hk));
+                        rec.op(&format!("str {}", hk));
+                    }
+                }
+                rec.op(&format!("idx {} 0", h));
+            }
+        }
     }
 }
 
